@@ -144,6 +144,13 @@ pub struct LexRun {
     pub pos: usize,
 }
 
+/// the lexer run stopped on an rgb lexeme (malformed OR truncated rgb block). The skip walks lexemes, not
+/// tokens, and reads such bytes as ordinary lexemes, so on a stream the lexer itself rejects inside an rgb
+/// block the two are not comparable (C09 speaks about well-formed documents).
+pub fn failed_in_rgb(fr: &LexRun, d: &[u8]) -> bool {
+    fr.outcome != "end" && d.len() >= fr.pos + 2 && u16::from_le_bytes([d[fr.pos], d[fr.pos + 1]]) == 0x0243
+}
+
 pub fn lex_run(d: &[u8]) -> LexRun {
     let mut lx = Lexer::new(d);
     let mut r = LexRun { toks: vec![], ends: vec![], kinds: vec![], outcome: "end", pos: 0 };
@@ -601,7 +608,7 @@ pub fn exec(w: &[&str], obs: &mut Obs) -> Option<String> {
                         // L3: lands exactly after the matching close
                         match reference {
                             Some(Ok(next)) => { if fr.ends[next - 1] != p { obs.violation("skip-lands-elsewhere", &case(), &format!("at {} want {}", p, fr.ends[next - 1])); } }
-                            Some(Err(())) if fr.outcome != "err:invalidrgb" => obs.violation("skip-ok-without-close", &case(), &format!("at {}", p)),
+                            Some(Err(())) if fr.outcome != "err:invalidrgb" && !failed_in_rgb(&fr, &d) => obs.violation("skip-ok-without-close", &case(), &format!("at {}", p)),
                             _ => {}
                         }
                         let nx = match rd.next_s() {
@@ -639,7 +646,7 @@ pub fn exec(w: &[&str], obs: &mut Obs) -> Option<String> {
                     Err(e) => return Some(format!("pre:{} {}", lex_err(e.kind()), lx.position())),
                 }
             }
-            Some(lex_skip_report(&mut lx, LexemeId::OPEN, reference.map(|r| r.map(|n| fr.ends[n - 1])), fr.outcome, &case(), obs))
+            Some(lex_skip_report(&mut lx, LexemeId::OPEN, reference.map(|r| r.map(|n| fr.ends[n - 1])), if failed_in_rgb(&fr, &d) { "err:invalidrgb" } else { fr.outcome }, &case(), obs))
         }
         ["blexskipv", h, kw] => {
             let d = unhex(h)?;
@@ -664,7 +671,7 @@ pub fn exec(w: &[&str], obs: &mut Obs) -> Option<String> {
                     balanced(&fr, opens_before).map(|r| r.map(|n| fr.ends[n - 1]))
                 } else { Some(Ok(fr.ends[k])) }
             } else { None };
-            Some(format!("{} {}", id.0, lex_skip_report(&mut lx, id, reference, fr.outcome, &case(), obs)))
+            Some(format!("{} {}", id.0, lex_skip_report(&mut lx, id, reference, if failed_in_rgb(&fr, &d) { "err:invalidrgb" } else { fr.outcome }, &case(), obs)))
         }
         ["bufops", cw, sw, h, opsw] => {
             let d = unhex(h)?;
